@@ -451,6 +451,9 @@ struct ReplayOut {
     mis: Value,
     pv: Vec<Value>,
     timing: bool,
+    /// a timer of the code fired that the schedule does not contain (idle expiry or refetch of
+    /// another worker): the schedule is not realisable with real clocks, the run is inconclusive
+    unsched: bool,
     trace: Vec<Value>,
     fetches: u64,
 }
@@ -465,14 +468,20 @@ fn replay_one(sched: &Value, idle_ms: u64) -> ReplayOut {
     let has_idle = h.iter().any(|s| s["ev"]["a"] == "idle");
     // refetch after an error needs a short first backoff; after ok a near-expiry first answer
     let threshold = 10u64;
+    // a refetch is scheduled for a worker whose first lookup fails: needs a short first backoff
+    let refetch_after_fail = h.iter().enumerate().any(|(i, s)| {
+        s["ev"]["a"] == "refetch"
+            && h[..i].iter().any(|p| p["ev"]["a"] == "ret" && p["ev"]["w"] == s["ev"]["w"] && p["ev"]["o"] != "ok")
+    });
+    let (bmin, bmax, bfac) = if refetch_after_fail { (0.0004, 3600.0, 1000.0) } else { (3600.0, 3600.0, 1.0) };
     let cfg = verif_sync::config(
         Duration::from_secs(3600),
         Duration::from_millis(100),
         Duration::from_secs(threshold),
         if has_idle { Duration::from_millis(idle_ms) } else { Duration::from_secs(3600) },
-        0.0004,
-        3600.0,
-        1000.0,
+        bmin,
+        bmax,
+        bfac,
     );
     let rt = tokio::runtime::Builder::new_current_thread().enable_all().build().expect("runtime");
     let out = rt.block_on(async move {
@@ -492,6 +501,9 @@ fn replay_one(sched: &Value, idle_ms: u64) -> ReplayOut {
         let mut mis = Value::Null;
         let mut conf = true;
         let mut timing = false;
+        let mut unsched = false;
+        let mut sched_idle: Vec<u64> = vec![];
+        let mut sched_fetches: HashMap<u64, usize> = HashMap::new();
         let mut pv: Vec<Value> = vec![];
         let mut obs: Vec<Value> = vec![];
 
@@ -586,6 +598,7 @@ fn replay_one(sched: &Value, idle_ms: u64) -> ReplayOut {
                     }
                 }
                 "refetch" => {
+                    *sched_fetches.entry(w).or_default() += 1;
                     let before = log_snapshot().iter().filter(|e| e.kind == "fetch_call" && e.w == w).count();
                     let ok = wait_until(|| log_snapshot().iter().filter(|e| e.kind == "fetch_call" && e.w == w).count() > before, Duration::from_secs(8)).await;
                     if !ok {
@@ -593,6 +606,7 @@ fn replay_one(sched: &Value, idle_ms: u64) -> ReplayOut {
                     }
                 }
                 "idle" => {
+                    sched_idle.push(w);
                     let ok = wait_until(|| log_snapshot().iter().any(|e| e.kind == "worker_exit" && e.w == w), Duration::from_millis(idle_ms * 4 + 5000)).await;
                     if !ok {
                         timing = true;
@@ -611,11 +625,61 @@ fn replay_one(sched: &Value, idle_ms: u64) -> ReplayOut {
                 _ => {}
             }
             settle().await;
+            {
+                // timers of the code that the schedule does not contain
+                let log = log_snapshot();
+                for e in log.iter() {
+                    if e.kind == "exiting" && e.note == "idle" && !sched_idle.contains(&e.w) {
+                        unsched = true;
+                    }
+                }
+                let mut calls: HashMap<u64, usize> = HashMap::new();
+                for e in log.iter().filter(|e| e.kind == "fetch_call") {
+                    *calls.entry(e.w).or_default() += 1;
+                }
+                for (w, n) in calls {
+                    if n > 1 + sched_fetches.get(&w).copied().unwrap_or(0) {
+                        unsched = true;
+                    }
+                }
+            }
             // P-monitor NoLostWakeup: after a lookup finished, every caller that waited on that
             // worker is released; after a cancel the caller is gone
             if a == "cancel" {
                 let c = callers.get_mut(&cn).unwrap();
                 reap(c).await;
+            }
+            if a == "ret" {
+                // callers that registered with worker w before this answer (caller_check saw an
+                // update pending) and were not woken before it
+                let log = log_snapshot();
+                let mut waiting: Vec<String> = vec![];
+                for e in log.iter().filter(|e| e.kind == "caller_check" && e.w == w) {
+                    let s = e.snap.unwrap_or_default();
+                    if !(s.ongoing || !s.initialized) {
+                        continue;
+                    }
+                    if let Some(n) = e.task.and_then(|t| names.get(&t)) {
+                        if !waiting.contains(n) {
+                            waiting.push(n.clone());
+                        }
+                    }
+                }
+                for n in waiting {
+                    let c = callers.get_mut(&n).unwrap();
+                    reap(c).await;
+                    if c.res.is_some() {
+                        continue;
+                    }
+                    let t0 = Instant::now();
+                    while c.res.is_none() && t0.elapsed() < Duration::from_secs(5) {
+                        tokio::time::sleep(Duration::from_millis(5)).await;
+                        reap(c).await;
+                    }
+                    if c.res.is_none() {
+                        pv.push(json!({"key": "NoLostWakeup:not-released-after-lookup", "what": format!("caller {} waited on worker {} and is still pending 5 s after that worker's lookup finished", n, w)}));
+                    }
+                }
             }
         }
         // ---- end of schedule: the manager was dropped and every lookup answered
@@ -623,6 +687,12 @@ fn replay_one(sched: &Value, idle_ms: u64) -> ReplayOut {
         let t_end = Instant::now();
         let mut all_done = false;
         while t_end.elapsed() < Duration::from_secs(5) {
+            // "lookups complete": answer lookups the schedule did not answer (timer-driven refetches)
+            let pend: Vec<oneshot::Sender<Outcome>> = fst.pending.lock().unwrap().drain().map(|(_, tx)| tx).collect();
+            for tx in pend {
+                unsched = true;
+                let _ = tx.send(Outcome::Err);
+            }
             for c in callers.values_mut() {
                 reap(c).await;
             }
@@ -681,7 +751,7 @@ fn replay_one(sched: &Value, idle_ms: u64) -> ReplayOut {
         // unscheduled exits (idle timer fired early, deferred reclamation) make the run inconclusive
         let wt = worker_tasks(&log);
         let trace: Vec<Value> = log.iter().map(|e| ev_json(e, &names, &wt)).collect();
-        ReplayOut { obs, conf, mis, pv, timing, trace, fetches: fst.calls.load(Ordering::SeqCst) }
+        ReplayOut { obs, conf, mis, pv, timing, unsched, trace, fetches: fst.calls.load(Ordering::SeqCst) }
     });
     // let the runtime drop (aborts whatever is left)
     out
@@ -694,8 +764,14 @@ fn cmd_replay(inp: &str, outp: &str) {
     let trace_path = format!("{outp}.trace.ndjson");
     let mut tr = NdjsonWriter::create(&trace_path);
     tr.write(&json!({"ev": "meta", "spec": "PathSync", "mode": "replay"}));
+    let mut violating = 0;
     for row in rows.iter() {
         if row.get("h").is_none() {
+            continue;
+        }
+        if violating >= 12 {
+            // every violation costs seconds of waiting: the verdict is clear, skip the rest
+            out.write(&json!({"id": row["id"], "skipped": true}));
             continue;
         }
         let mut idle_ms = 120;
@@ -704,7 +780,7 @@ fn cmd_replay(inp: &str, outp: &str) {
             let r = vh_core::catch(|| replay_one(row, idle_ms));
             match r {
                 Ok(r) => {
-                    let retry = r.timing || (!r.conf && row["h"].as_array().unwrap().iter().any(|s| s["ev"]["a"] == "idle" || s["ev"]["a"] == "refetch"));
+                    let retry = !r.unsched && (r.timing || (!r.conf && row["h"].as_array().unwrap().iter().any(|s| s["ev"]["a"] == "idle" || s["ev"]["a"] == "refetch")));
                     let pvs = !r.pv.is_empty();
                     res = Some(r);
                     if !retry || pvs {
@@ -713,13 +789,16 @@ fn cmd_replay(inp: &str, outp: &str) {
                     idle_ms *= 4;
                 }
                 Err(p) => {
-                    res = Some(ReplayOut { obs: vec![], conf: false, mis: json!({"panic": p}), pv: vec![json!({"key": "Panic:harness-thread", "what": p})], timing: false, trace: vec![], fetches: 0 });
+                    res = Some(ReplayOut { obs: vec![], conf: false, mis: json!({"panic": p}), pv: vec![json!({"key": "Panic:harness-thread", "what": p})], timing: false, unsched: false, trace: vec![], fetches: 0 });
                     break;
                 }
             }
         }
         let r = res.unwrap();
-        out.write(&json!({"id": row["id"], "obs": r.obs, "conf": r.conf, "mis": r.mis, "pv": r.pv, "timing": r.timing, "fetches": r.fetches, "events": r.trace.len()}));
+        if !r.pv.is_empty() {
+            violating += 1;
+        }
+        out.write(&json!({"id": row["id"], "obs": r.obs, "conf": r.conf, "mis": r.mis, "pv": r.pv, "timing": r.timing, "unsched": r.unsched, "fetches": r.fetches, "events": r.trace.len()}));
         tr.write(&json!({"ev": "reset", "nw": row["final"]["w"].as_array().map(|a| a.len()).unwrap_or(2), "callers": row["callers"], "id": row["id"]}));
         for e in r.trace {
             tr.write(&e);
@@ -742,8 +821,16 @@ fn cmd_record(evp: &str, resp: &str) {
     let mut stats: BTreeMap<String, u64> = BTreeMap::new();
     let mut total_events = 0u64;
     let mut nontrivial = 0u64;
+    let mut done_runs = 0u64;
     for run in 0..runs {
-        let seed = seed0.wrapping_mul(0x9E37).wrapping_add(shard * 1_000_003 + run);
+        if pv.len() >= 12 {
+            break;
+        }
+        done_runs += 1;
+        let seed = match std::env::var("VERIF_ONE_SEED").ok().and_then(|s| s.parse::<u64>().ok()) {
+            Some(s) => s, // re-run of one recorded scenario (bin/check C20 --replay)
+            None => seed0.wrapping_mul(0x9E37).wrapping_add(shard * 1_000_003 + run),
+        };
         let r = vh_core::catch(|| record_one(seed));
         match r {
             Ok((meta, trace, mut v, st)) => {
@@ -757,10 +844,12 @@ fn cmd_record(evp: &str, resp: &str) {
                     x["seed"] = json!(seed);
                 }
                 pv.extend(v);
+                if st.get("woken").copied().unwrap_or(0) > 0 || st.get("stops").copied().unwrap_or(0) > 0 {
+                    nontrivial += 1;
+                }
                 for (k, n) in st {
                     *stats.entry(k).or_default() += n;
                 }
-                nontrivial += 1;
             }
             Err(p) => pv.push(json!({"key": "Panic:harness-thread", "what": p, "run": run, "seed": seed})),
         }
@@ -768,7 +857,7 @@ fn cmd_record(evp: &str, resp: &str) {
     tr.finish();
     std::fs::write(
         resp,
-        serde_json::to_string(&json!({"runs": runs, "events": total_events, "pv": pv, "stats": stats, "nontrivial_runs": nontrivial})).unwrap(),
+        serde_json::to_string(&json!({"runs": done_runs, "planned_runs": runs, "events": total_events, "pv": pv, "stats": stats, "nontrivial_runs": nontrivial})).unwrap(),
     )
     .expect("write results");
 }
@@ -780,13 +869,14 @@ fn record_one(seed: u64) -> RecOut {
     let mut rng = Rng::new(seed);
     let ncallers = rng.range(2, 8) as usize;
     let nk = if rng.chance(1, 3) { 2 } else { 1 };
-    let idle_short = rng.chance(1, 4);
+    let idle_short = rng.chance(1, 3);
+    let idle_ms = rng.range(1, 4);
     let threshold = 10u64;
     let cfg = verif_sync::config(
         Duration::from_secs(3600),
         Duration::from_millis(100),
         Duration::from_secs(threshold),
-        if idle_short { Duration::from_millis(rng.range(1, 12)) } else { Duration::from_secs(3600) },
+        if idle_short { Duration::from_millis(idle_ms) } else { Duration::from_secs(3600) },
         3600.0,
         3600.0,
         1.0,
@@ -877,9 +967,11 @@ fn record_one(seed: u64) -> RecOut {
                     *stats.entry("drops".into()).or_default() += 1;
                 }
             } else {
-                match rng.below(3) {
+                match rng.below(4) {
                     0 => tokio::task::yield_now().await,
                     1 => tokio::time::sleep(Duration::from_micros(rng.range(10, 2500))).await,
+                    // long enough for two idle checks of an unused worker
+                    2 if idle_short => tokio::time::sleep(Duration::from_millis(3 * idle_ms)).await,
                     _ => {}
                 }
             }
@@ -944,6 +1036,10 @@ fn record_one(seed: u64) -> RecOut {
         for e in log.iter() {
             if e.kind == "exiting" {
                 *stats.entry(format!("exit_{}", e.note.split(',').next().unwrap_or("").replace(' ', "_"))).or_default() += 1;
+                if e.note == "cancelled" && !log.iter().any(|d| d.kind == "drop_begin" && d.seq < e.seq) {
+                    // the cancel token fired while the manager was held: a removed map entry was reclaimed
+                    *stats.entry("exit_cancelled_by_reclaim".into()).or_default() += 1;
+                }
             }
             if e.kind == "caller_done" {
                 *stats.entry(format!("res_{}", e.note)).or_default() += 1;
